@@ -898,7 +898,9 @@ impl ImageHandler for SixelImageHandler {
             write!(sixel_image, "#{};2;{};{};{}", index, red, green, blue)?;
         }
         // color_index -> [(column, sixel_code)]
-        let mut sixel_lines: HashMap<usize, Vec<(usize, u8)>> = HashMap::new();
+        // NOTE: ordered map, so the same image is always encoded to the same bytes
+        let mut sixel_lines: std::collections::BTreeMap<usize, Vec<(usize, u8)>> =
+            std::collections::BTreeMap::new();
         let mut unique_colors: HashSet<usize> = HashSet::with_capacity(6);
         for row in (0..qimg.height()).step_by(6) {
             sixel_lines.clear();
